@@ -7,7 +7,7 @@
    totality ("formatting succeeds") and the layout chosen by the `pretty` crate.
    `c12_idem_partial` is partial: idempotence is reduced to the two facts F1/F2 about the
    implementation, which are validated per run, not proved. *)
-From Cedar Require Import Fmt FmtProofs FmtLexProofs.
+From Cedar Require Import Fmt FmtProofs FmtLexProofs FmtCanonProofs.
 
 (* the executable validator decides the specification *)
 Theorem c12_validator_sound_complete : forall inp out, fmt_okb inp out = true <-> fmt_ok inp out.
@@ -72,6 +72,23 @@ Theorem c12_join_preserves :
 Proof. exact fmt_ok_join. Qed.
 Print Assumptions c12_join_preserves.
 
+(* every token the lexer produces re-lexes to exactly itself (replay invariant of the mode automaton) *)
+Theorem c12_tokens_relex :
+  forall s l, clex s = Some l -> Forall item_wf l.
+Proof. exact clex_wf. Qed.
+Print Assumptions c12_tokens_relex.
+
+(* The hypotheses of c12_idem_partial are jointly satisfiable: the canonical printer (one token per
+   line) `canon` satisfies F2 on comment-free lexable texts and F1, and is idempotent there.  So the
+   specification "fmt_ok + function of the tokens" has a model, and for that model idempotence is a
+   theorem without hypotheses. *)
+Theorem c12_idem_canonical :
+  (forall a, clex a <> None -> comment_free a -> fmt_ok a (canon a)) /\
+  (forall a b, clex a <> None -> tokens a = tokens b -> canon a = canon b) /\
+  (forall a, clex a <> None -> comment_free a -> canon (canon a) = canon a).
+Proof. exact (conj canon_F2 (conj canon_F1 canon_idempotent)). Qed.
+Print Assumptions c12_idem_canonical.
+
 (* Non-vacuity *)
 Example c12_example_ok :
   fmt_okb (s2str "permit(principal,action,resource)when{1<2};// c  ")
@@ -88,3 +105,16 @@ Proof. vm_compute; reflexivity. Qed.
 Example c12_example_changed_token :
   fmt_okb (s2str "a <= b") (s2str "a < = b") = false /\ fmt_okb (s2str "a::b") (s2str "a : : b") = false.
 Proof. split; vm_compute; reflexivity. Qed.
+Example c12_example_canon :
+  canon (s2str "permit(principal,action,resource);") =
+  s2str "permit
+(
+principal
+,
+action
+,
+resource
+)
+;
+".
+Proof. vm_compute; reflexivity. Qed.
